@@ -30,7 +30,7 @@ def aggF (p : PAgg) : Trig.Agg := fun h =>
 
 /-- the node's configuration from the typechecked block -/
 def gbConf (keys : List SExpr) (aggs : List PAgg) (t : Trig) : Trig.GBConf where
-  keyOf := fun vals => (evalAll vals keys).getD []
+  keyOf := fun vals => (evalAll vals keys).getD (List.replicate keys.length .null)   -- (the default is never used: `recOk`)
   aggs := aggs.map fun p => ⟨aggF p, fun vals => (evalArg vals p).getD .null⟩
   ket := none
   cfg := t.cfg
